@@ -604,7 +604,8 @@ func init() {
 	Register(&Prop{
 		ID:    "C12",
 		Title: "Results are plain self-contained data and evaluation is deterministic",
-		Rule: "(1/12 of the cases: form ordered-window - joins of 6-40 rows per side and groupings, whose row order is open, under a total multi-key ORDER BY with a LIMIT / OFFSET window and ties on the leading key, re-executed 8 times and compared as sequences.) rapid draws a document and (2/3) one of 70 expression forms (columns, bracket and continued selectors over per-row arrays of different lengths, literals of every kind, arithmetic, unary, comparisons, IN, BETWEEN, LIKE, " +
+		Rule: "[Dimensions added in rounds p-r of the seeded-defect evaluation: form many-groups (36-2000 distinct two-column keys built at check time under GROUP BY / HAVING / DISTINCT / UNION, 4 re-executions); scalar sub queries over aliased derived tables selecting * from dual.] " +
+			"(1/12 of the cases: form ordered-window - joins of 6-40 rows per side and groupings, whose row order is open, under a total multi-key ORDER BY with a LIMIT / OFFSET window and ties on the leading key, re-executed 8 times and compared as sequences.) rapid draws a document and (2/3) one of 70 expression forms (columns, bracket and continued selectors over per-row arrays of different lengths, literals of every kind, arithmetic, unary, comparisons, IN, BETWEEN, LIKE, " +
 			"IS, NOT, AND/OR, CASE with and without ELSE, built-in and user function calls, nested calls, subqueries, ASYNC / ONCE / SPIN / SPINASYNC " +
 			"calls, SETVAR/GETVAR, FUSE, CONSTANT, 14 built-ins with NULL / missing arguments) placed in one of 24 positions (select item aliased/unaliased, function argument, array element, " +
 			"CASE branch/else/condition, IN list, WHERE, subquery select list, grouped select list, HAVING, joined select list, CTE and derived-table " +
